@@ -74,11 +74,11 @@ CHECKS = {
                 "(C01) and successful solves answer the latest problem (C02); for well-formed inputs (total samplers, goal bias in [0,1], "
                 "non-empty start list) no call of RRT / RRT-Connect / RRT* ever panics or fails to return, for every call history (panics are "
                 "first-class outcomes of the model: unwrap, index, random_bool; RRT* never hangs for ANY sampler behaviour given distances "
-                ">= 0, not NaN), and a PRM query on a roadmap satisfying the C18 invariant always returns. Outside well-formedness the model - and the code - "
+                ">= 0, not NaN), and no PRM call (setup, set_problem_definition, construct_roadmap, solve) ever panics or hangs. Outside well-formedness the model - and the code - "
                 "panic: C08_refuted_* witnesses = the known findings. Correspondence on call scripts with sampler faults at the k-th call, "
                 "out-of-range bias and empty start lists: panic/no-panic and error kind must match the model.",
         "design_ref": "DESIGN.md section 7 C08, section 8 row 7",
-        "note": PLANNER_NOTE + " PRM construction (sampler unwrap) is covered by the correspondence and the panic-capturing oracle; its query is proved total.",
+        "note": PLANNER_NOTE + " All four planners have a never-panics / always-returns theorem over whole API histories under well-formedness (total samplers, goal bias in [0,1], non-empty start lists).",
         "technique": "Coq proof (panics as outcomes; invariant over API histories) + correspondence on fault-injected call scripts",
     },
     "C15": {
@@ -116,7 +116,10 @@ CHECKS = {
                 "neighbours with a valid motion; rewiring re-parents exactly the neighbours that get strictly cheaper (others bit-identical); "
                 "RRT* fed the same samples as RRT holds the same node states at every iteration and stops in the same iteration, and its "
                 "recorded cost never exceeds RRT's branch length. Correspondence: snapshots with cost bits; direct oracles: cost invariant "
-                "on every snapshot, RRT vs RRT* on equal seeds (same end state, not longer).",
+                "on every snapshot, RRT vs RRT* on equal seeds (same end state, not longer). The assumption itself is a theorem about the float "
+                "model of the spaces (C17_float_distances_are_sane: R^n, SO(2), SO(3), compounds to any depth; acos an oracle assumed "
+                ">= 0 on [0,1]; the side conditions - no NaN coordinate difference, finite angle difference, finite non-zero weights - "
+                "are proved necessary).",
         "design_ref": "DESIGN.md section 7 C17",
         "note": PLANNER_NOTE + " 'No longer than RRT' is the float statement for root-to-leaf left-fold sums with edges measured dist(child,parent); symmetry of dist is C09.",
         "technique": "Coq proof (float-level cost invariants via Flocq, simulation RRT ~ RRT*) + snapshot correspondence by vm_compute",
